@@ -70,6 +70,10 @@ func missingRequired(s *schema.Struct, root *wire.Node) (names map[string]bool) 
 	return
 }
 
+// walkUnaligned counts map entries that walkBoth could not align (equal-valued
+// keys, NaN keys); callers that need a complete walk reset and read it.
+var walkUnaligned int
+
 // walkBoth visits every struct instance present both in the Go value v (a
 // struct of schema s) and in the parsed message, aligned through lists by index
 // and through maps with scalar/string keys by the key's wire bytes.
@@ -106,40 +110,44 @@ func walkBothValue(t *schema.Type, v reflect.Value, n *wire.Node, msg []byte, pa
 			return
 		}
 		if t.Key.Ptr {
-			// pointer-to-struct keys: match each wire entry with the Go entry whose
-			// key struct has the same canonical value (quadratic, maps are small)
+			// pointer-to-struct keys: a wire entry is aligned with the Go entry whose key
+			// has the same reference encoding up to field and map-entry order (a nil key is
+			// the empty struct on the wire, a zero-valued key is not). Keys that occur
+			// more than once under that comparison cannot be told apart and stay unaligned.
 			type ent struct {
 				k, v  reflect.Value
 				canon string
-				used  bool
 			}
 			var ents []*ent
+			freq := map[string]int{}
 			it := v.MapRange()
 			for it.Next() {
-				if it.Key().IsNil() {
+				cs, err := wire.CanonSorted(ref.ValueBytes(t.Key, it.Key()))
+				if err != nil {
+					walkUnaligned++
 					continue
 				}
-				ents = append(ents, &ent{k: it.Key(), v: it.Value(), canon: string(ref.Canon(t.Key.S, it.Key().Elem(), ref.CmpOpts{}))})
-			}
-			freq := map[string]int{}
-			for _, e := range ents {
-				freq[e.canon]++
+				ents = append(ents, &ent{k: it.Key(), v: it.Value(), canon: string(cs)})
+				freq[string(cs)]++
 			}
 			for i := 0; i+1 < len(n.Elems); i += 2 {
 				kn := n.Elems[i]
-				tmp := reflect.New(t.Key.S.Go)
-				ref.InitDefault(t.Key.S, tmp.Elem())
-				if _, _, err := ref.Decode(t.Key.S, msg[kn.Start:kn.End], tmp.Elem()); err != nil {
-					continue
-				}
-				want := string(ref.Canon(t.Key.S, tmp.Elem(), ref.CmpOpts{}))
-				for _, e := range ents {
-					if !e.used && e.canon == want && freq[want] == 1 { // equal-valued keys cannot be told apart: not aligned
-						e.used = true
-						walkBoth(t.Key.S, e.k.Elem(), kn, msg, fmt.Sprintf("%s{key%d}", path, i/2), fn)
-						walkBothValue(t.Elem, e.v, n.Elems[i+1], msg, fmt.Sprintf("%s{val%d}", path, i/2), fn)
-						break
+				cs, err := wire.CanonSorted(msg[kn.Start:kn.End])
+				matched := false
+				if err == nil && freq[string(cs)] == 1 {
+					for _, e := range ents {
+						if e.canon == string(cs) {
+							matched = true
+							if !e.k.IsNil() {
+								walkBoth(t.Key.S, e.k.Elem(), kn, msg, fmt.Sprintf("%s{key%d}", path, i/2), fn)
+							}
+							walkBothValue(t.Elem, e.v, n.Elems[i+1], msg, fmt.Sprintf("%s{val%d}", path, i/2), fn)
+							break
+						}
 					}
+				}
+				if !matched {
+					walkUnaligned++
 				}
 			}
 			return
@@ -157,7 +165,11 @@ func walkBothValue(t *schema.Type, v reflect.Value, n *wire.Node, msg []byte, pa
 		}
 		for i := 0; i+1 < len(n.Elems); i += 2 {
 			k := n.Elems[i]
-			if mv, ok := byKey[string(msg[k.Start:k.End])]; ok && dup[string(msg[k.Start:k.End])] == 1 {
+			mv, ok := byKey[string(msg[k.Start:k.End])]
+			if !ok || dup[string(msg[k.Start:k.End])] != 1 {
+				walkUnaligned++
+			}
+			if ok && dup[string(msg[k.Start:k.End])] == 1 {
 				walkBothValue(t.Elem, mv, n.Elems[i+1], msg, fmt.Sprintf("%s{%x}", path, msg[k.Start:k.End]), fn)
 			}
 		}
